@@ -28,6 +28,7 @@ type World struct {
 
 	globInit    map[*ssa.Global]map[int]constInit // field index (-1 = whole) -> constant
 	globMutated map[*ssa.Global]bool
+	globNonNil  map[*ssa.Global]bool // initialised in init with errors.New / fmt.Errorf
 }
 
 type constInit struct {
@@ -168,6 +169,7 @@ func rootGlobal(v ssa.Value) (*ssa.Global, int, bool) {
 func (w *World) scanGlobals() {
 	w.globInit = map[*ssa.Global]map[int]constInit{}
 	w.globMutated = map[*ssa.Global]bool{}
+	w.globNonNil = map[*ssa.Global]bool{}
 	for _, f := range w.funcs {
 		isInit := f.Name() == "init" && f.Parent() == nil
 		for _, b := range f.Blocks {
@@ -179,6 +181,14 @@ func (w *World) scanGlobals() {
 						continue
 					}
 					if isInit {
+						if call, isCall := i.Val.(*ssa.Call); isCall && fi == -1 {
+							if f, ok := call.Call.Value.(*ssa.Function); ok && (f.RelString(nil) == "errors.New" || f.RelString(nil) == "fmt.Errorf") {
+								if _, dup := w.globNonNil[g]; !dup && !w.globMutated[g] {
+									w.globNonNil[g] = true
+									continue
+								}
+							}
+						}
 						if c, isC := i.Val.(*ssa.Const); isC && fi >= -1 {
 							if w.globInit[g] == nil {
 								w.globInit[g] = map[int]constInit{}
@@ -245,6 +255,11 @@ func (w *World) globalAddr(e *Enc, g *ssa.Global) *T {
 			if strings.HasPrefix(other, "glob$") && other != sym {
 				e.decls = append(e.decls, fmt.Sprintf("(assert (not (= %s %s)))", sym, other))
 			}
+		}
+		if !w.globMutated[g] && w.globNonNil[g] {
+			h := e.entryHeap(cellHeap(sIface), arrSort(sRef, sIface))
+			e.decls = append(e.decls, fmt.Sprintf("(assert (not (= (select %s %s) nilIface)))", h.S, sym))
+			e.uses[fmt.Sprintf("package variable %s.%s is an error sentinel created by errors.New in init and never reassigned: non-nil", g.Pkg.Pkg.Name(), g.Name())] = true
 		}
 		// immutable initial constants
 		if !w.globMutated[g] {
